@@ -46,6 +46,9 @@ def blocks(tier):
         for first in range(core - k + 1):
             yield ("case", k, first)
     yield ("napp",)
+    for k in ((1, 2) if tier == "quick" else (1, 2, 3)):
+        for first in range(core - k + 1):
+            yield ("names", k, first)
     # the select uses search(): its choices are in-line items whose labels are itext references
     for k in ((1, 2) if tier == "quick" else (1, 2, 3)):
         for first in range(core - k + 1):
@@ -60,6 +63,20 @@ def blocks(tier):
 
 
 CASE_LANGS = ["", "en", "EN"]
+# element names that contain the keywords the translation paths are built from
+KEYWORD_ROWS = [[("my_guidance_hint_q", "text"), ("g_label", "begin group"), ("hint", "select_one c")],
+                [("label", "text"), ("image_g", "begin group"), ("s_guidance_hint", "select_one c")]]
+
+
+def contexts(case):
+    import contextlib
+
+    st = contextlib.ExitStack()
+    if case.get("langs") == "case":
+        st.enter_context(grid.langs(CASE_LANGS))
+    if case.get("names") is not None:
+        st.enter_context(grid.rows(KEYWORD_ROWS[case["names"]]))
+    return st
 
 
 def expand(block, tier):
@@ -71,6 +88,15 @@ def expand(block, tier):
                 for extra in [None, *core]:
                     for dl in DEFLANGS[:2]:
                         yield {"cells": [list(extra)] if extra else [], "dl": dl, "ref": ref, "napp": list(ls), "rev": bool(len(ls) % 2)}
+        return
+    if block[0] == "names":
+        _, k, first = block
+        cs = grid.cells(True)
+        n = 0
+        for rest in itertools.combinations(cs[first + 1:], k - 1):
+            for dl in DEFLANGS[:2]:
+                n += 1
+                yield {"cells": [list(c) for c in (cs[first], *rest)], "dl": dl, "ref": False, "rev": bool(n % 2), "names": n % len(KEYWORD_ROWS)}
         return
     if block[0] == "search":
         _, k, first = block
@@ -167,9 +193,7 @@ def invariant_problems(obs, xform, dl):
 
 def build_case(case, **kw):
     """workbook of a grid case (shared with C08): language alphabet, column order, optional noAppErrorString cells"""
-    import contextlib
-
-    with (grid.langs(CASE_LANGS) if case.get("langs") == "case" else contextlib.nullcontext()):
+    with contexts(case):
         wb, ckw = grid.build([tuple(c) for c in case["cells"]], case["dl"], ref=case["ref"], rev=case.get("rev", False), search=bool(case.get("search")), **kw)
     for l in case.get("napp", ()):
         wb["survey"][0]["noAppErrorString" + (f"::{l}" if l else "")] = f"q.napp.{l or '0'}" + (" ${inner}" if case["ref"] else "")
